@@ -57,6 +57,12 @@ func (f *Frame) callCommon(in ssa.Instruction, c *ssa.CallCommon, guard string, 
 	if fv.Clo != nil {
 		return f.callFunc(in, fv.Clo.Fn, fv.Clo.Bindings, guard, st, args, rt)
 	}
+	// a function-typed parameter with a callback contract "F#param" (trusted; listed as an assumption)
+	if prm, ok := c.Value.(*ssa.Parameter); ok {
+		if ct := e.P.CS.Funcs[e.P.fnName(f.fn)+"#"+prm.Name()]; ct != nil {
+			return f.callContract(in, ct, nil, guard, st, args, rt, nil)
+		}
+	}
 	// unknown function value: havoc everything
 	e.note(fmt.Sprintf("%s calls an unknown function value (%s): all heaps havocked, result unconstrained", e.P.fnName(f.fn), c.Value.Name()))
 	f.havocAll(st)
